@@ -190,6 +190,16 @@ func c01DepsJoined(c *Check, a *Anchors) {
 						lit := c.P.LitBody(sp)
 						c.Fn(lit)
 						okCtx = a.ctxReachesRunTask(c.P, lit, ctxVar, 2)
+					case *ast.SelectorExpr:
+						// a method value of a struct that carries the executor, the context and the dependency
+						if h, fields := a.methodValueSpawn(c.P, fb, sp); h != nil {
+							c.Fn(h)
+							for name, val := range fields {
+								if ctxVar != nil && varOf(info, val) == ctxVar && a.ctxReachesRunTaskP(c.P, h, recvFieldIs(h, name), 2) {
+									okCtx = true
+								}
+							}
+						}
 					case *ast.CallExpr:
 						if hfn, ok := callee(info, sp).(*types.Func); ok {
 							if h := c.P.DeclOf(hfn); h != nil && h.Pkg.PkgPath == PkgTask {
@@ -268,6 +278,13 @@ func c01DepErrorKept(c *Check, a *Anchors) {
 		if fn, ok := callee(fb.Info(), call).(*types.Func); ok {
 			if h := c.P.DeclOf(fn); h != nil && h != fb && h != a.RunTask && h.Pkg.PkgPath == PkgTask && !a.runTaskWrapper(c.P, h, 2) {
 				lits = append(lits, h.Lits()...)
+			}
+		}
+	}
+	for _, call := range callsIn(fb, true) {
+		if isFunc(callee(fb.Info(), call), "golang.org/x/sync/errgroup", "Group", "Go") && len(call.Args) == 1 {
+			if h, _ := a.methodValueSpawn(c.P, fb, call.Args[0]); h != nil {
+				lits = append(lits, h) // the spawned function is a method value
 			}
 		}
 	}
